@@ -223,6 +223,8 @@ def c07_steps(tier, seed):
         miri("chan-miri-a", "m_channel", ["--shape", 2 * seed], 32 if q else 768, timeout=400 if q else 3000),
         miri("chan-miri-b", "m_channel", ["--shape", 2 * seed + 1], 32 if q else 768, timeout=400 if q else 3000),
         miri("raw-slot-miri", "m_iter", ["--shape", seed], 8 if q else 256, timeout=600 if q else 3600),
+        miri("chan-aba-full", "m_aba", ["--shape", 0], 3 if q else 24, timeout=300 if q else 900),
+        miri("chan-aba-empty", "m_aba", ["--shape", 1], 3 if q else 24, timeout=300 if q else 900),
         chan("chan-random", "random", 1500 if q else 100000, seed + 1),
         chan("chan-signal", "signal", 1000 if q else 50000, seed + 2),
         chan("chan-nest", "nest", 3000 if q else 100000, seed + 3),
@@ -397,6 +399,8 @@ def c13_steps(tier, seed):
     st.append(strace("pipe-strace", ["w_strace", "--what", "pipe"], oracle="c13"))
     # the iterator's own write end (backend.rs): never written to once closed, also for a delivery during the owner's drop
     st.append(native("iterator-write-end", ["w_instance", "--seed", seed + 5, "--scripts", 300 if q else 5000, "--concurrent", 60 if q else 600], also=["C12"], timeout=600))
+    # the iterator's wake-up on a completely full self-pipe, delivered on the consumer's own thread
+    st.append(native("backlog-on-own-thread", ["w_step", "--mode", "backlog", "--seed", seed + 6], timeout=300))
     return st
 
 
@@ -571,6 +575,7 @@ def c03_steps(tier, seed):
         native("alloc-watch-iterators", ["w_iter", "--instances", 15, "--rounds", 15 if q else 200, "--seed", seed + 32], timeout=900),
         native("channel-nested-in-handler", ["w_channel", "--mode", "signal", "--histories", 800 if q else 40000, "--seed", seed + 33, "--heap", 0], also=["C08"]),
         native("wake-on-full-descriptors", ["w_pipe", "--seed", seed + 34, "--cycles", 200], also=["C13"]),
+        native("backlog-on-own-thread", ["w_step", "--mode", "backlog", "--seed", seed + 36], timeout=300),
         # an armed shutdown must leave with _exit: running exit-time hooks inside the handler is not async-signal-safe
         native("armed-shutdown-no-exit-hooks", ["w_flag", "--seed", seed + 35, "--scripts", 300 if q else 5000], also=["C15"]),
     ]
